@@ -5,6 +5,7 @@ the sdist skip, the downgrade-budget comparison and the operators that make a re
 from __future__ import annotations
 
 import ast
+import re
 from typing import Dict, List, Tuple
 
 import translate as T
@@ -144,6 +145,23 @@ def do_get_facts() -> Dict[str, object]:
     skip = None
     cmp_ge = None
     break_body = None
+    # second accepted spelling of the skip: `if <candidate.type == DistributionType.X> and (not allow_source_dist): continue`,
+    # the comparison written in place or through a local name assigned from it once
+    alias = {}
+    for n in ast.walk(fn):
+        if (isinstance(n, ast.Assign) and len(n.targets) == 1 and isinstance(n.targets[0], ast.Name)
+                and re.fullmatch(r"candidate\.type == DistributionType\.\w+", _src(n.value))):
+            if n.targets[0].id in alias:
+                raise TranslateError("do_get_candidate: type test name assigned twice")
+            alias[n.targets[0].id] = _src(n.value)
+    for n in ast.walk(fn):
+        if isinstance(n, ast.If) and isinstance(n.test, ast.BoolOp) and isinstance(n.test.op, ast.And) and len(n.test.values) == 2 \
+                and _src(n.test.values[1]) == "not allow_source_dist" and any(isinstance(x, ast.Continue) for x in n.body):
+            first = alias.get(_src(n.test.values[0]), _src(n.test.values[0]))
+            m = re.fullmatch(r"candidate\.type == DistributionType\.(\w+)", first)
+            if not m or n.orelse or skip is not None:
+                raise TranslateError("do_get_candidate: sdist skip shape changed: " + _src(n.test))
+            skip = m.group(1)
     for n in ast.walk(fn):
         if isinstance(n, ast.If) and isinstance(n.test, ast.Compare) and _src(n.test.left) == "candidate.type":
             if len(n.test.ops) != 1 or not isinstance(n.test.ops[0], ast.Eq):
